@@ -453,4 +453,118 @@ def rule_lt(repo, tier):
 
 
 def rules(repo, tier):
-    return [rule_vt(repo, tier), rule_sb(repo, tier), rule_lt(repo, tier)]
+    return [rule_vt(repo, tier), rule_sb(repo, tier), rule_lt(repo, tier), rule_pure(repo, tier), rule_dep(repo, tier)]
+
+
+def rule_pure(repo, tier):
+    from .. import effects
+    res = RuleResult('C04.PURE', 'every function and autograd method of pypose.lietensor.operation is pure: it writes in place neither into '
+                     'its arguments / saved tensors nor into storage shared between calls (memoised results, module-level tensors) - '
+                     'otherwise gradients depend on call history', floor=100)
+    S, stats = effects.compute_summaries(repo)
+    for f in repo.module(OP).functions.values():
+        s = S[f.fq]
+        res.inst({'function': f.fq, 'mutates_params': sorted(str(x) for x in s.mut), 'writes_shared': sorted(s.shared)}, f.fq)
+        for lab, (node, why, chain) in s.shared.items():
+            res.add(Finding('C04.PURE', f, 'in-place write into %s (%s%s): a later backward pass sees the modified object' % (
+                lab, why, (' via ' + ' -> '.join(chain)) if chain else ''), node=node if isinstance(node, ast.AST) else None,
+                construct='shared <- ' + lab))
+        for (pi, path) in sorted(s.mut, key=str):
+            node, why, chain = s.sinks[(pi, path)]
+            pname = f.params[pi] if pi < len(f.params) else '?'
+            res.add(Finding('C04.PURE', f, 'overwrites its argument `%s` in place (%s)' % (pname, why), node=node if isinstance(node, ast.AST) else None,
+                            construct='param <- ' + pname))
+    return res
+
+
+# ---------------------------------------------------------------- DEP: slot-dependency agreement between Act4 forward and its Jacobian helper
+
+def _slots_used(repo, fname, layout_slots, depth=0):
+    """roles of the (single) vector parameter of helper `fname` that its result depends on, following repo callees"""
+    f = repo.func(OP, fname)
+    p = f.pos_params[0]
+    used = set()
+    size = layout_slots[-1][2]
+    inl = inline_straight(f.node)
+    exprs = [v for v in inl.env.values() if isinstance(v, ast.AST)]
+    for r in returns_of(f.node):
+        if r.value is not None:
+            exprs.append(inline_straight(f.node, upto=r).value(r.value))
+
+    def roles_of_slice(sl):
+        lo = L._const(sl.lower, 0) if isinstance(sl, ast.Slice) else L._const(sl, None)
+        hi = L._const(sl.upper, size) if isinstance(sl, ast.Slice) else (None if lo is None else lo + 1)
+        if lo is None or hi is None:
+            return {r for r, a, b in layout_slots}
+        lo = lo + size if lo < 0 else lo
+        hi = hi + size if hi < 0 else min(hi, size)
+        return {r for r, a, b in layout_slots if a < hi and lo < b}
+    for e in exprs:
+        for n in ast.walk(e):
+            if isinstance(n, ast.Subscript) and isinstance(n.value, ast.Name) and n.value.id == p and isinstance(n.slice, ast.Tuple) \
+                    and len(n.slice.elts) >= 2 and isinstance(n.slice.elts[0], ast.Constant) and n.slice.elts[0].value is Ellipsis:
+                used |= roles_of_slice(n.slice.elts[1])
+            if isinstance(n, ast.Call) and isinstance(n.func, ast.Name) and repo.has_func(OP, n.func.id) and depth < 3:
+                for a in n.args:
+                    if isinstance(a, ast.Name) and a.id == p:
+                        g = repo.func(OP, n.func.id)
+                        if len(g.pos_params) == 1:
+                            used |= _slots_used(repo, n.func.id, layout_slots, depth + 1)
+                        else:
+                            used |= {r for r, _, _ in layout_slots}
+            if isinstance(n, ast.Name) and n.id == p and isinstance(getattr(n, 'ctx', None), ast.Load):
+                pass
+    # bare uses of the whole parameter in arithmetic (not as a call argument / subscript base / shape query)
+    for e in exprs:
+        parents = {}
+        for n in ast.walk(e):
+            for c in ast.iter_child_nodes(n):
+                parents[id(c)] = n
+        for n in ast.walk(e):
+            if isinstance(n, ast.Name) and n.id == p:
+                par = parents.get(id(n))
+                if isinstance(par, ast.Subscript) and par.value is n:
+                    continue
+                if isinstance(par, ast.Attribute) and par.attr in ('shape', 'device', 'dtype'):
+                    continue
+                if isinstance(par, ast.Call) and n in par.args and isinstance(par.func, ast.Name) and repo.has_func(OP, par.func.id):
+                    continue
+                used |= {r for r, _, _ in layout_slots}
+    return used
+
+
+def rule_dep(repo, tier):
+    res = RuleResult('C04.DEP', 'slot-dependency agreement: for groups with a translation slot the forward of Act4 multiplies the translation by '
+                     'the homogeneous coordinate of the point, so the pose gradient (its Act4 Jacobian helper) must depend on that '
+                     'coordinate; every Act / Act4 Jacobian depends on the spatial part of the point', floor=8)
+    table = L.extract_table(repo)
+    vec3 = [('r', 0, 3)]
+    vec4 = [('r', 0, 3), ('h', 3, 4)]
+    for fam in FAMS:
+        has_t = any(s[0] == 't' for s in table[fam]['slots'])
+        for name, lay in ((fam + '_Act_Jacobian', vec3), (fam + '_Act4_Jacobian', vec4)):
+            used = _slots_used(repo, name, lay)
+            f = repo.func(OP, name)
+            want = {'r'} | ({'h'} if (has_t and lay is vec4) else set())
+            res.inst({'function': f.fq, 'point_slots_used': sorted(used), 'required': sorted(want)}, f.fq)
+            for r in sorted(want - used):
+                res.add(Finding('C04.DEP', f, '%s does not depend on the %s of the point although the forward action does: the %s block of the '
+                                'pose gradient is wrong whenever that coordinate differs from the value implicitly assumed' % (
+                                    name, 'homogeneous coordinate w' if r == 'h' else 'spatial part', 'translation' if r == 'h' else 'rotation'),
+                                construct='missing dependence on ' + r))
+        # forward side of the same fact
+        if has_t:
+            fw = repo.func(OP, fam + '_Act4.forward')
+            v = inline_straight(fw.node, upto=returns_of(fw.node)[0]).value(returns_of(fw.node)[0].value)
+            X, p = fw.pos_params
+            prod = False
+            for n in ast.walk(v):
+                if isinstance(n, ast.BinOp) and isinstance(n.op, ast.Mult):
+                    s_ = (src(n.left).replace(' ', ''), src(n.right).replace(' ', ''))
+                    if any(x.startswith(X + '[') for x in s_) and any(x.startswith(p + '[...,3') for x in s_):
+                        prod = True
+            res.inst({'function': fw.fq, 'translation_times_w': prod}, fw.fq)
+            if not prod:
+                res.add(Finding('C04.DEP', fw, '%s_Act4.forward does not scale the translation by the homogeneous coordinate of the point' % fam,
+                                construct='forward t*w'))
+    return res
